@@ -698,7 +698,9 @@ func genTarFsCase(r *Rng, big bool) tarCase {
 		n := r.Range(1, 2)
 		for k := 0; k < n; k++ {
 			p := fresh()
-			dev := int(unix.Mkdev(uint32(Pick(r, []int{1, 5, 10, 4095, 4096, 300000})), uint32(Pick(r, []int{3, 1, 0, 255, 256, 1048575, 5000000}))))
+			// device numbers stay below 2^21: PAX has no record for them, so a larger number cannot be combined
+			// with any field that needs PAX (an inherent limit of the format, not of apko)
+			dev := int(unix.Mkdev(uint32(Pick(r, []int{1, 5, 10, 4095, 4096, 300000})), uint32(Pick(r, []int{3, 1, 0, 255, 256, 1048575, 2097151}))))
 			add(fsOp{K: "mknod", P: p, N: Pick(r, []int{0o20000, 0o666, 0o20666, 0o600, 1<<20 | 0o666}), M: dev})
 			devs = append(devs, p)
 		}
